@@ -622,6 +622,29 @@ static void caseC14(uint64_t idx, vh::Rng& g)
 			if (ok && (rb.rules.size() != a.rules.size() || rb.states().size() != states.size())) R->violation("C14/reindex-weak/counts", "");
 			if (ok && rm::cmpLang(a, im2, al) > 0) R->violation("C14/oracle/injective-changes-language", "reference model: injective image has another language");
 		}
+		{	// one weak translator (and its counter) used for a second automaton that shares some state numbers with the
+			// first: what it learnt for A stays, B's states that A also has keep A's images, the others get fresh ones, and
+			// each result is the image under the accumulated map (this is how the library itself renumbers two operands
+			// consistently)
+			R->phase("ReindexStates(weak, translator reused)"); R->count("weak-translator-reused");
+			RTA b0 = gen::randTA(g, al, numbering(g, g.range(1, 4), 0, states.empty() ? 0 : *states.begin()), g.range(1, 5), 1); Aut B = mkExpl(b0, ca);
+			AutBase::StateToStateMap wm; size_t c = g.chance(1, 2) ? 0 : 1000; AutBase::StateToStateTranslWeak tr(wm, [&c](const size_t&) { return c++; });
+			Aut ra = A.ReindexStates(tr); AutBase::StateToStateMap afterA = wm;
+			bool into = false; Aut rbAut = B.ReindexStates(tr);   // (the overload that writes into a destination takes a functor, not a translator)
+			bool ok = true; for (auto& p2 : afterA) { auto it = wm.find(p2.first); if (it == wm.end() || it->second != p2.second) ok = false; }
+			if (!ok) R->violation("C14/reindex-weak-reused/earlier-entries-changed", "");
+			std::set<size_t> vals; for (auto& p2 : wm) vals.insert(p2.second); if (vals.size() != wm.size()) R->violation("C14/reindex-weak-reused/not-injective", "");
+			std::set<St> want = states, bs = b0.states(); want.insert(bs.begin(), bs.end()); std::set<St> keys; for (auto& p2 : wm) keys.insert(p2.first);
+			if (keys != want) R->violation("C14/reindex-weak-reused/translator-keys", "translator does not contain exactly the states of both sources");
+			else
+			{
+				auto image = [&](const RTA& x) { RTA im; for (auto& r : x.rules) { RRule y; y.sym = r.sym; y.par = wm[r.par]; for (St cc : r.ch) y.ch.push_back(wm[cc]); im.rules.insert(y); } for (St f : x.fin) im.fin.insert(wm[f]); return im; };
+				RTA ia = image(a), ib = image(b0), exp = ib; if (into) { exp.rules.insert(ia.rules.begin(), ia.rules.end()); exp.fin.insert(ia.fin.begin(), ia.fin.end()); }
+				if (readExpl(ra, &ca) != ia) R->violation("C14/reindex-weak-reused/first-result-changed", "the first result is no longer the image of A");
+				if (readExpl(rbAut, &ca) != exp) R->violation("C14/reindex-weak-reused/image", "second result is not the image under the accumulated translation");
+			}
+			if (readExpl(B, &ca) != b0) R->violation("C14/operand-changed", "second source");
+		}
 		{	// into a non-empty destination
 			R->phase("ReindexStates(into dst)");
 			RTA d0 = gen::randTA(g, al, numbering(g, 3, 0, m.empty() ? 0 : m.begin()->second), 3, 1);
